@@ -304,3 +304,14 @@ func H_C19_crc_mismatch_yields_no_rows() {
 		vpAssert(err == nil && len(out) == len(data), "C19: row data with a matching CRC was rejected")
 	}
 }
+
+// A file truncated inside its block filter region: the failed chunk read must not leave the query
+// with a buffer that two later scans share (details: C03's buffer typestate).
+//
+//vp:override bs.getScanBuffer=vpGetTracked
+//vp:override bs.putScanBuffer=vpPutTracked
+//vp:override bs.parseFilterSection=vpParseSectionStub
+//vp:bounds as H_C03_filter_chunk_buffers_are_given_back_at_most_once
+func H_C19_truncated_filter_region_does_not_poison_the_buffer_pool() {
+	H_C03_filter_chunk_buffers_are_given_back_at_most_once()
+}
